@@ -32,7 +32,7 @@ func (s *seam) enter(e *Event) {
 	if fp := env.Prog.Cfg.Faults; fp.SlowPct > 0 && len(fp.SlowMenu) > 0 && simrt.InTask() {
 		if env.Sim.Ch.Pct(fp.SlowPct, "slow") {
 			d := fp.SlowMenu[env.Sim.Ch.Choose(len(fp.SlowMenu), "slowdur")]
-			env.Probes.SlowCalls++
+			env.noteSlow()
 			simrt.Sleep(time.Duration(d))
 		}
 	}
@@ -136,10 +136,16 @@ func (r *RecCached) Flush() {
 func (r *RecCached) alloc(kind, name string, tags map[string]string) (*handle, *Event) {
 	e := r.env.Log.begin(r.env.Sim, kind, name, tags)
 	e.Cached = true
-	h := &handle{r: r, id: len(r.handles) + 1, kind: kind, name: name, tags: copyTags(tags)}
+	h := &handle{r: r, kind: kind, name: name, tags: copyTags(tags)}
+	r.addHandle(h)
 	e.Handle = h.id
-	r.handles = append(r.handles, h)
 	return h, e
+}
+
+//go:norace
+func (r *RecCached) addHandle(h *handle) {
+	h.id = len(r.handles) + 1
+	r.handles = simrt.AppendNR(r.handles, h)
 }
 
 func (r *RecCached) AllocateCounter(name string, tags map[string]string) tally.CachedCount {
@@ -195,8 +201,8 @@ func (h *handle) ReportTimer(d time.Duration) {
 func (h *handle) ValueBucket(lo, hi float64) tally.CachedHistogramBucket {
 	r := h.r
 	e := r.env.Log.begin(r.env.Sim, EvAllocVB, h.name, h.tags)
-	b := &handle{r: r, id: len(r.handles) + 1, kind: EvAllocVB, name: h.name, tags: h.tags, parent: h.id, lo: lo, hi: hi}
-	r.handles = append(r.handles, b)
+	b := &handle{r: r, kind: EvAllocVB, name: h.name, tags: h.tags, parent: h.id, lo: lo, hi: hi}
+	r.addHandle(b)
 	e.Cached, e.Handle, e.Parent, e.Lo, e.Hi = true, b.id, h.id, lo, hi
 	r.enter(e)
 	r.env.Log.end(e)
@@ -206,8 +212,8 @@ func (h *handle) ValueBucket(lo, hi float64) tally.CachedHistogramBucket {
 func (h *handle) DurationBucket(lo, hi time.Duration) tally.CachedHistogramBucket {
 	r := h.r
 	e := r.env.Log.begin(r.env.Sim, EvAllocDB, h.name, h.tags)
-	b := &handle{r: r, id: len(r.handles) + 1, kind: EvAllocDB, name: h.name, tags: h.tags, parent: h.id, loD: lo, hiD: hi}
-	r.handles = append(r.handles, b)
+	b := &handle{r: r, kind: EvAllocDB, name: h.name, tags: h.tags, parent: h.id, loD: lo, hiD: hi}
+	r.addHandle(b)
 	e.Cached, e.Handle, e.Parent, e.LoD, e.HiD = true, b.id, h.id, lo, hi
 	r.enter(e)
 	r.env.Log.end(e)
